@@ -97,6 +97,12 @@ func c19Check(cs c19Case) (ok bool, sig, expected, observed string) {
 					}
 				}
 			}
+			if t.Type == token.ILLEGAL {
+				// when the lexer is asked once more and answers with the end-of-input token, that token sits where it always sits
+				if after := l.NextToken(); after.Type == token.EOF {
+					toks = append(toks, tk{t: after})
+				}
+			}
 			if t.Type == token.EOF || t.Type == token.ILLEGAL {
 				return Outcome{Kind: KOut}
 			}
@@ -138,6 +144,15 @@ func c19Check(cs c19Case) (ok bool, sig, expected, observed string) {
 				if okE && e == s && t.Literal != src[s:s+1] {
 					fail = "illegal-token-text-differs-from-source"
 					observed = describe(t) + fmt.Sprintf(", the source has %q there", src[s:s+1])
+				}
+			}
+			if fail == "" && i+1 < len(toks) && toks[i+1].t.Type == token.EOF {
+				et := toks[i+1].t
+				es, okS := offsetOf(et.Pos.StartLine, et.Pos.StartCol)
+				ee, okE := offsetOf(et.Pos.EndLine, et.Pos.EndCol)
+				if !okS || !okE || es != len(src) || ee != len(src) {
+					fail = "eof-after-illegal-not-one-past-last-byte"
+					observed = describe(t) + ", then " + describe(et) + fmt.Sprintf(" for source of %d bytes", len(src))
 				}
 			}
 			break
